@@ -39,8 +39,64 @@ pub fn run_parent(ctx: &mut Ctx) {
     // one more child: one client machine (one xet cache root) talking to several CAS servers, configured by `default_config`
     let cache_root = PathBuf::from(std::env::var("TMPDIR").unwrap_or("/verif/run/tmp".into())).join(format!("two-servers-cache-{}-{}", std::process::id(), ctx.seed));
     cfgs.push(vec![("XET_VERIF_TWO_SERVERS".into(), "1".into()), ("HF_XET_CACHE".into(), cache_root.to_string_lossy().into()), ("HF_XET_TARGET_CHUNK_SIZE".into(), "4096".into())]);
+    // and one whose local shard cache is valid for 2 seconds only: what was uploaded must stay reconstructible after that period
+    cfgs.push(vec![("XET_VERIF_EXPIRY_SCENARIO".into(), "1".into()), ("HF_XET_MDB_SHARD_LOCAL_CACHE_EXPIRATION_SECS".into(), "2".into()), ("HF_XET_TARGET_CHUNK_SIZE".into(), "4096".into())]);
     run_children(ctx, "session-child", &cfgs);
     let _ = std::fs::remove_dir_all(&cache_root);
+}
+
+/// The validity period of the LOCAL shard cache (3 weeks by default, 2 s here) must not limit how long uploaded files stay
+/// reconstructible from the store: upload in two sessions, download, wait for the period to pass, download again with a fresh
+/// downloader, upload once more (a file sharing content with the earlier ones), download everything again.
+fn expiry_scenario(ctx: &mut Ctx) {
+    let tp = Arc::new(ThreadPool::new().expect("threadpool"));
+    let base = PathBuf::from(std::env::var("TMPDIR").unwrap_or("/verif/run/tmp".into())).join(format!("expiry-{}-{}", std::process::id(), ctx.seed));
+    std::fs::create_dir_all(&base).unwrap();
+    let mut rng = ctx.rng.fork(78_000);
+    let config = TranslatorConfig::local_config(&base).unwrap();
+    let validity = *data::VERIF_MDB_SHARD_LOCAL_CACHE_EXPIRATION_SECS;
+    let replay = format!("{{\"suite\":\"session\",\"scenario\":\"local-shard-cache-validity-passes\",\"seed\":{},\"validity_secs\":{validity}}}", ctx.seed);
+    let mut stored: Vec<(PointerFile, Vec<u8>)> = Vec::new();
+    let upload = |files: Vec<Vec<u8>>| -> Result<Vec<PointerFile>, String> {
+        let (cfg, tp2) = (config.clone(), tp.clone());
+        tp.external_run_async_task(async move {
+            let session = FileUploadSession::new(cfg, tp2, None).await?;
+            let mut out = Vec::new();
+            for (i, f) in files.iter().enumerate() { let mut cl = session.start_clean(format!("f{i}")); cl.add_data(f).await?; out.push(cl.finish().await?.0); }
+            session.finalize().await?;
+            Ok::<_, data::errors::DataProcessingError>(out)
+        }).unwrap().map_err(|e| e.to_string())
+    };
+    let check_all = |ctx: &mut Ctx, stored: &[(PointerFile, Vec<u8>)], when: &str| {
+        let (cfg, tp2) = (config.clone(), tp.clone());
+        let downloader = match tp.external_run_async_task(async move { FileDownloader::new(cfg, tp2).await }).unwrap() { Ok(d) => Arc::new(d), Err(e) => { ctx.fail("C01", "downloader-failed", format!("FileDownloader::new failed {when}: {e}"), replay.clone()); return; } };
+        for (pi, (ptr, bytes)) in stored.iter().enumerate() {
+            let out_path = base.join(format!("dl-{pi}"));
+            let _ = std::fs::remove_file(&out_path);
+            let (dlr, p2, op) = (downloader.clone(), ptr.clone(), OutputProvider::File(FileProvider::new(out_path.clone())));
+            let res = tp.external_run_async_task(async move { dlr.smudge_file_from_pointer(&p2, &op, None, None).await }).unwrap();
+            let got = std::fs::read(&out_path).unwrap_or_default();
+            match res {
+                Ok(_) if got == *bytes => {}
+                Ok(_) => ctx.fail("C01", "file-differs-after-cache-validity-period", format!("file {pi} ({} bytes) downloads with different content {when}", bytes.len()), replay.clone()),
+                Err(e) => ctx.fail("C01", "file-lost-after-cache-validity-period", format!("file {pi} ({} bytes), uploaded by a session that reported success, cannot be downloaded {when} (local shard cache validity {validity} s): {e}", bytes.len()), replay.clone()),
+            }
+            ctx.stat("expiry_scenario_downloads");
+            let _ = std::fs::remove_file(&out_path);
+        }
+    };
+    for sno in 0..2 {
+        let files: Vec<Vec<u8>> = (0..rng.range(1, 3)).map(|_| { let n = rng.range(1, 120_000) as usize; rng.bytes(n) }).collect();
+        match upload(files.clone()) { Ok(ptrs) => stored.extend(ptrs.into_iter().zip(files)), Err(e) => { ctx.fail("C01", "finalize-failed", format!("session {sno} of the validity scenario failed without a fault: {e}"), replay.clone()); return; } }
+    }
+    check_all(ctx, &stored, "right after the upload");
+    std::thread::sleep(std::time::Duration::from_millis(1000 * validity.min(5) + 1500));
+    check_all(ctx, &stored, "after the local shard cache validity period has passed");
+    // a third session: a file made of pieces of the earlier ones plus new bytes
+    let mut f = stored[0].1.clone(); let n = rng.range(1, 30_000) as usize; f.extend_from_slice(&rng.bytes(n)); f.extend_from_slice(&stored.last().unwrap().1);
+    match upload(vec![f.clone()]) { Ok(ptrs) => stored.extend(ptrs.into_iter().zip(vec![f])), Err(e) => ctx.fail("C01", "finalize-failed", format!("the session after the validity period failed without a fault: {e}"), replay.clone()) }
+    check_all(ctx, &stored, "after the validity period and one more session");
+    let _ = std::fs::remove_dir_all(&base);
 }
 
 /// One client machine, several servers: the client-side configuration of each session is what `data_client::default_config`
@@ -262,6 +318,7 @@ struct Done { pointer: PointerFile, metrics: DeduplicationMetrics, oracle: Vec<S
 
 pub fn run_child(ctx: &mut Ctx) {
     if std::env::var("XET_VERIF_TWO_SERVERS").is_ok() { two_servers(ctx); return; }
+    if std::env::var("XET_VERIF_EXPIRY_SCENARIO").is_ok() { expiry_scenario(ctx); return; }
     let (target, mindiv, maxmul) = (*TARGET_CHUNK_SIZE, *MINIMUM_CHUNK_DIVISOR, *MAXIMUM_CHUNK_MULTIPLIER);
     let (maxb, maxc) = (*MAX_XORB_BYTES, *MAX_XORB_CHUNKS);
     let ingest: usize = std::env::var("HF_XET_INGESTION_BLOCK_SIZE").ok().and_then(|s| s.parse().ok()).unwrap_or(8 << 20);
